@@ -174,12 +174,14 @@ def _run_slice(args):
             agg["digests"][i] = res.get("digest")
             if nworkers == 1:
                 agg["digests"][-i - 1] = check.run_case(case).get("digest")
-        agg["n"] += 1
+        agg["n"] += int(res.get("evals", 1))
         agg["fired"].update(res.get("fired") or {})
         agg["probes"].update(res.get("probes") or {})
         agg["vtime_ns"] += res.get("vtime_ns", 0)
         k = res.get("key")
         if k is not None:
+            agg["keys"].add(k if isinstance(k, int) else key_hash(k))
+        for k in res.get("keys") or ():
             agg["keys"].add(k if isinstance(k, int) else key_hash(k))
         v = res.get("viol")
         if v:
